@@ -13,11 +13,18 @@ ap.add_argument("--eh", action="store_true"); ap.add_argument("--mem", action="s
 ap.add_argument("--timeout", type=int, default=300); ap.add_argument("--param", action="append", default=[])
 ap.add_argument("--solver", default="minisat"); ap.add_argument("--define", action="append", default=[])
 ap.add_argument("--trace"); ap.add_argument("--native"); ap.add_argument("--object-bits", type=int, default=13)
-ap.add_argument("--unwindset", action="append", default=[]); ap.add_argument("--gen-native", help="run the gcc-compiled GENERATED C with these values")
+ap.add_argument("--ll2c-flag", action="append", default=[], help="extra ll2c flag, e.g. --ll2c-flag=--byte-loops"); ap.add_argument("--unwindset", action="append", default=[]); ap.add_argument("--gen-native", help="run the gcc-compiled GENERATED C with these values")
+ap.add_argument("--extra-models", default="", help="comma list of further model files under models/ (job key extra_models)")
+ap.add_argument("--pregen", default="", help="comma list of generator sources relative to /verif (job key pregen)")
+ap.add_argument("--pregen-units", default="", help="units (or a specs list name) the generators are linked with (job key pregen_units)")
+ap.add_argument("--verbosity9", action="store_true", help="debug recipe: run cbmc --verbosity 9 and print 'Unwinding loop' counts per loop")
 a = ap.parse_args()
 units = getattr(specs, a.units) if hasattr(specs, a.units) else [u for u in a.units.split(",") if u]
 job = dict(name="try-" + os.path.splitext(a.harness)[0], harness=a.harness, entries=[a.entry], units=units, unwind=a.unwind, eh=a.eh,
-           checks="mem" if a.mem else "none", object_bits=a.object_bits, defines=a.define, unwindset=a.unwindset)
+           checks="mem" if a.mem else "none", object_bits=a.object_bits, defines=a.define, unwindset=a.unwindset, ll2c_flags=a.ll2c_flag)
+if a.extra_models: job["extra_models"] = [m for m in a.extra_models.split(",") if m]
+if a.pregen: job["pregen"] = [m for m in a.pregen.split(",") if m]
+if a.pregen_units: job["pregen_units"] = getattr(specs, a.pregen_units) if hasattr(specs, a.pregen_units) else [u for u in a.pregen_units.split(",") if u]
 params = {int(p.split("=")[0]): int(p.split("=")[1]) for p in a.param}
 if a.native is not None:
     exe = ovmbmc.build_native(job, "quick")
@@ -35,6 +42,17 @@ if a.gen_native is not None:
     env = dict(os.environ); env["V_VALUES"] = a.gen_native
     for k, v in params.items(): env["V_PARAM%d" % k] = str(v)
     r = subprocess.run([exe], capture_output=True, text=True, env=env); print(r.stdout[-3000:]); print("rc", r.returncode); sys.exit(0)
+if a.verbosity9:
+    import re, collections
+    cmd = [c for c in ovmbmc.cbmc_cmd(gb, a.entry, job, a.solver) if c not in ("--json-ui",)]
+    cmd[cmd.index("--verbosity") + 1] = "9"
+    r = ovmbmc.run_cbmc_once(cmd, a.timeout, 10)
+    cnt = collections.Counter(); last = {}
+    for l in (r["out"] + r["err"]).splitlines():
+        m = re.search(r"Unwinding loop (\S+) iteration (\d+)", l)
+        if m: cnt[m.group(1)] += 1; last[m.group(1)] = max(last.get(m.group(1), 0), int(m.group(2)))
+    for k, v in cnt.most_common(40): print("%8d  max-iter %5d  %s" % (v, last[k], k))
+    print("status", r["status"], "wall %.1fs rss %sMB" % (r["wall"], r["maxrss_mb"])); print((r["out"] + r["err"])[-1500:]); sys.exit(0)
 extra = ["--trace", "--property", a.trace] if a.trace else []
 r = ovmbmc.run_cbmc_once(ovmbmc.cbmc_cmd(gb, a.entry, job, a.solver, extra), a.timeout, 10)
 if r["status"] == "timeout": print("TIMEOUT after", a.timeout); sys.exit(3)
